@@ -470,3 +470,450 @@ Proof.
   - apply NoDup_map_cons_inj. exact IH.
   - intros st H1 H2. apply in_map_iff in H1 as [s1 [<- _]]. apply in_map_iff in H2 as [s2 [E _]]. discriminate.
 Qed.
+
+Theorem enum_states_spec l st : In st (enum_states l) <-> map fst st = l /\ valid_state st = true.
+Proof. unfold enum_states. rewrite filter_In, all_states_spec. tauto. Qed.
+
+Theorem enum_states_nodup l : NoDup (enum_states l).
+Proof. unfold enum_states. apply NoDup_filter. apply all_states_nodup. Qed.
+
+Lemma st_get_true_in st n : st_get st n = true -> In (n, true) st.
+Proof.
+  induction st as [|[m b] st IH]; simpl; [discriminate|].
+  destruct (nid_eqb m n) eqn:E.
+  - intros ->. apply nid_eqb_eq in E. subst. left. reflexivity.
+  - intro H. right. apply IH. exact H.
+Qed.
+
+Lemma st_get_in st n b : NoDup (map fst st) -> In (n, b) st -> st_get st n = b.
+Proof.
+  induction st as [|[m c] st IH]; simpl; intros Hnd Hin; [contradiction|].
+  inversion Hnd; subst. destruct Hin as [E|Hin].
+  - injection E as -> ->. rewrite nid_eqb_refl. reflexivity.
+  - destruct (nid_eqb m n) eqn:E.
+    + apply nid_eqb_eq in E. subst. exfalso. apply H1. apply (in_map fst) in Hin. exact Hin.
+    + apply IH; assumption.
+Qed.
+
+(* the validity test of enumerate_valid_expansion_states says what it should:
+   every expanded container has all its enclosing containers expanded *)
+Theorem valid_state_spec st : NoDup (map fst st) ->
+  (valid_state st = true <->
+   forall n, st_get st n = true -> forall a, In a (ancestors n) -> st_get st a = true).
+Proof.
+  intro Hnd. unfold valid_state. rewrite forallb_forall. split.
+  - intros H n Hn a Ha. apply st_get_true_in in Hn. specialize (H _ Hn). simpl in H.
+    rewrite forallb_forall in H. apply H. exact Ha.
+  - intros H [n b] Hin. simpl. destruct b; simpl; [|reflexivity].
+    apply forallb_forall. intros a Ha. apply (H n); [apply st_get_in; assumption | exact Ha].
+Qed.
+
+Lemma st_get_state_of_depth d l n :
+  st_get (state_of_depth d l) n = if memn n l then Nat.ltb (level n) d else false.
+Proof.
+  unfold state_of_depth. induction l as [|m l IH]; simpl; [reflexivity|].
+  destruct (nid_eqb m n) eqn:E.
+  - apply nid_eqb_eq in E. subst. rewrite nid_eqb_refl. reflexivity.
+  - assert (E' : nid_eqb n m = false).
+    { apply nid_eqb_neq. apply nid_eqb_neq in E. congruence. }
+    rewrite E'. simpl. exact IH.
+Qed.
+
+(* build_expansion_state(depth) is one of the valid states, for every depth *)
+Theorem state_of_depth_valid d l :
+  (forall n a, In n l -> In a (ancestors n) -> In a l) -> valid_state (state_of_depth d l) = true.
+Proof.
+  intro Hcl. unfold valid_state. apply forallb_forall. intros [n b] Hin. simpl.
+  unfold state_of_depth in Hin. apply in_map_iff in Hin as [n' [E Hn']]. injection E as -> <-.
+  destruct (Nat.ltb (level n) d) eqn:El; simpl; [|reflexivity].
+  apply forallb_forall. intros a Ha. rewrite st_get_state_of_depth.
+  assert (Hal : In a l) by (eapply Hcl; eauto).
+  apply memn_in in Hal. rewrite Hal. apply Nat.ltb_lt. apply Nat.ltb_lt in El.
+  apply ancestors_level in Ha. lia.
+Qed.
+
+Theorem state_of_depth_enumerated d l :
+  (forall n a, In n l -> In a (ancestors n) -> In a l) -> In (state_of_depth d l) (enum_states l).
+Proof.
+  intro Hcl. apply enum_states_spec. split; [|apply state_of_depth_valid; exact Hcl].
+  unfold state_of_depth. rewrite map_map. simpl. apply map_id.
+Qed.
+
+(* at depth d exactly the nodes of nesting level <= d are visible *)
+Theorem vis_state_of_depth d l n :
+  (forall a, In a (ancestors n) -> In a l) ->
+  (vis (state_of_depth d l) n = true <-> level n <= d).
+Proof.
+  intro Hal. rewrite vis_spec. split.
+  - intro H. destruct n as [|x [|y n'']]; [unfold level; simpl; lia | unfold level; simpl; lia|].
+    remember (x :: y :: n'') as n eqn:En.
+    assert (Hx : n <> []) by (subst; discriminate).
+    assert (Hlen : length n = S (S (length n''))) by (subst; reflexivity).
+    assert (Hlast : In (removelast n) (ancestors n)).
+    { apply ancestors_spec. split.
+      - subst. simpl. discriminate.
+      - exists [last n xH]. split; [discriminate|]. apply app_removelast_last. exact Hx. }
+    specialize (H _ Hlast). rewrite st_get_state_of_depth in H.
+    specialize (Hal _ Hlast). apply memn_in in Hal. rewrite Hal in H. apply Nat.ltb_lt in H.
+    pose proof (app_removelast_last xH Hx) as E.
+    apply (f_equal (@length _)) in E. rewrite app_length in E. cbn [length] in E.
+    unfold level in *. lia.
+  - intros Hle a Ha. rewrite st_get_state_of_depth. specialize (Hal _ Ha). apply memn_in in Hal. rewrite Hal.
+    apply Nat.ltb_lt. apply ancestors_level in Ha. lia.
+Qed.
+
+(* ------------------------------------------------------------------ the checker means Faithful *)
+
+Lemma memc_in x c : memc x c = true <-> In x c.
+Proof.
+  induction c as [|y c IH]; simpl; [split; [discriminate | tauto]|].
+  rewrite orb_true_iff, IH, andb_true_iff, nid_eqb_eq, Pos.eqb_eq.
+  destruct x as [a b], y as [a' b']; simpl. split.
+  - intros [[-> ->]|H]; auto.
+  - intros [E|H]; [injection E as -> ->; auto | auto].
+Qed.
+
+Lemma ekind_eqb_eq a b : ekind_eqb a b = true <-> a = b.
+Proof. destruct a, b; simpl; split; congruence. Qed.
+
+Lemma guard_nil b p : guard b p = [] <-> b = true.
+Proof. destruct b; simpl; split; congruence. Qed.
+
+Lemma flat_map_nil {A B} (f : A -> list B) l : flat_map f l = [] <-> forall x, In x l -> f x = [].
+Proof.
+  induction l as [|a l IH]; simpl; [split; [contradiction | reflexivity]|].
+  split.
+  - intro H. apply app_eq_nil in H as [Ha Hl]. intros x [<-|Hx]; [exact Ha | apply IH; assumption].
+  - intro H. rewrite (H a (or_introl eq_refl)). simpl. apply IH. intros x Hx. apply H. right. exact Hx.
+Qed.
+
+Lemma app_nil_iff {A} (a b : list A) : a ++ b = [] <-> a = [] /\ b = [].
+Proof. split; [apply app_eq_nil | intros [-> ->]; reflexivity]. Qed.
+
+Lemma nodup_keys_spec l : nodup_keys l = true <-> NoDup l.
+Proof.
+  induction l as [|k l IH]; simpl; [split; [constructor | reflexivity]|].
+  rewrite andb_true_iff, negb_true_iff, IH. split.
+  - intros [Hk Hl]. constructor; [|exact Hl]. intro Hin. apply memp_in in Hin. congruence.
+  - intro H. inversion H; subst. split; [|assumption].
+    destruct (memp k l) eqn:E; [apply memp_in in E; contradiction | reflexivity].
+Qed.
+
+Section Faithful.
+  Variables (m : vmode) (ts : list tnode) (es : list tedge) (ext : list name) (st : xstate) (D : drawing).
+  Let fl := flatten_all ts.
+  Let deps := all_deps ts es.
+  Let dn := dnodes D.
+
+  (* what a key of the drawing shows *)
+  Definition Shows (k : positive) (n : nid) : Prop := shown_real dn k = Some n.
+  Definition ShowsData (k : positive) (s : nid) (o : name) : Prop := shown_data dn k = Some (s, o).
+  Definition IsInput (k : positive) (ps : list name) : Prop := is_input dn k = Some ps.
+
+  (* --- a dependency is drawn between visible representatives of producer and consumer *)
+  Definition DrawnMerged (ps cs : chain) : Prop :=
+    exists e s t, In e (dedges D) /\ ty_data (e_ty e) = true /\
+                  Shows (e_src e) s /\ Shows (e_tgt e) t /\ In s (ids ps) /\ In t (ids cs).
+
+  Definition DrawnSeparate (ps cs : chain) : Prop :=
+    exists e e' s o t, In e (dedges D) /\ In e' (dedges D) /\
+                       ty_data (e_ty e) = true /\ ty_output (e_ty e') = true /\ e_tgt e' = e_src e /\
+                       ShowsData (e_src e) s o /\ Shows (e_tgt e) t /\ Shows (e_src e') s /\
+                       In (s, o) ps /\ In t (ids cs).
+
+  Definition DrawnDirect (k : ekind) (s0 t0 : nid) : Prop :=
+    exists e t r, In e (dedges D) /\ ty_of k (e_ty e) = true /\
+                  Shows (e_src e) s0 /\ Shows (e_tgt e) t /\ t = t0 ++ r.
+
+  Definition DepDrawn (d : dep) : Prop :=
+    match dp_kind d with
+    | KData => if separate m then DrawnSeparate (vis_chain st (dp_pc d)) (vis_chain st (dp_cc d))
+               else DrawnMerged (vis_chain st (dp_pc d)) (vis_chain st (dp_cc d))
+    | k => DrawnDirect k (last_id (dp_pc d)) (last_id (dp_cc d))
+    end.
+
+  (* --- an edge corresponds to a dependency *)
+  Definition JustData (e : dedge) : Prop :=
+    if separate m then
+      exists s o t d, ShowsData (e_src e) s o /\ Shows (e_tgt e) t /\ In d deps /\ dp_kind d = KData /\
+                      In (s, o) (dp_pc d) /\ In t (ids (dp_cc d))
+    else
+      exists s t d, Shows (e_src e) s /\ Shows (e_tgt e) t /\ In d deps /\ dp_kind d = KData /\
+                    In s (ids (dp_pc d)) /\ In t (ids (dp_cc d)).
+
+  Definition JustDirect (k : ekind) (e : dedge) : Prop :=
+    exists s t d r, Shows (e_src e) s /\ Shows (e_tgt e) t /\ In d deps /\ dp_kind d = k /\
+                    s = last_id (dp_pc d) /\ t = last_id (dp_cc d) ++ r.
+
+  Definition JustOutput (e : dedge) : Prop :=
+    exists s o f, Shows (e_src e) s /\ ShowsData (e_tgt e) s o /\ find_f s fl = Some f /\ In o (f_outs f).
+
+  Definition JustInput (e : dedge) : Prop :=
+    exists ps t p c, IsInput (e_src e) ps /\ Shows (e_tgt e) t /\ In p ps /\ In p ext /\
+                     In c (input_chains ts p) /\ In t (ids c).
+
+  Definition JustEnd (e : dedge) : Prop :=
+    is_end dn (e_tgt e) = true /\ exists g f, Shows (e_src e) g /\ find_f g fl = Some f /\ f_end f = true.
+
+  Definition Justified (e : dedge) : Prop :=
+    match e_ty e with
+    | TInput => JustInput e
+    | TData => JustData e
+    | TControl => JustDirect KControl e
+    | TOrdering => JustDirect KOrdering e
+    | TEnd => JustEnd e
+    | TOutput => JustOutput e
+    | TSolid => JustData e \/ JustDirect KControl e \/ JustOutput e
+    end.
+
+  Definition EndDrawn (g : nid) : Prop :=
+    exists e, In e (dedges D) /\ e_ty e = TEnd /\ is_end dn (e_tgt e) = true /\ Shows (e_src e) g.
+
+  Definition InputDrawn (p : name) (c : chain) : Prop :=
+    exists e ps t, In e (dedges D) /\ e_ty e = TInput /\ IsInput (e_src e) ps /\ Shows (e_tgt e) t /\
+                   In p ps /\ In t (ids (vis_chain st c)).
+
+  (* The drawing of one expansion state is self-consistent and faithful. *)
+  Record Faithful : Prop := {
+    (* every declared id is declared once *)
+    F_keys : NoDup (map d_key dn);
+    (* every node of every nesting level is declared at most once and is shown iff it is visible in this state *)
+    F_nodes : forall f, In f fl ->
+        count_real dn (f_id f) <= 1 /\ shown_count dn (f_id f) = (if vis st (f_id f) then 1 else 0);
+    (* both ends of every edge are declared nodes of this state *)
+    F_ends : forall e, In e (dedges D) ->
+        (exists d, find_key (e_src e) dn = Some d) /\ (exists d, find_key (e_tgt e) dn = Some d);
+    (* every dependency whose two ends are shown apart is drawn between visible representatives *)
+    F_complete : forall d, In d deps -> dep_shown st d = true -> DepDrawn d;
+    (* every edge corresponds to a dependency, a graph input, an END target or an output *)
+    F_sound : forall e, In e (dedges D) -> Justified e;
+    (* every visible gate that may route to END has its END edge *)
+    F_end : forall f, In f fl -> f_end f = true -> vis st (f_id f) = true -> EndDrawn (f_id f);
+    (* (interactive view) every consumer of a graph input gets an edge from that input's node *)
+    F_inputs : inputs_complete m = true ->
+        forall p c, In p ext -> In c (input_chains ts p) -> InputDrawn p c
+  }.
+
+  (* reflection of the pieces *)
+
+  Ltac split_bool H :=
+    repeat match type of H with
+           | _ && _ = true => let H1 := fresh H in apply andb_true_iff in H as [H H1]; try split_bool H1
+           end.
+
+  Lemma drawn_merged_spec ps cs : drawn_merged D ps cs = true <-> DrawnMerged ps cs.
+  Proof.
+    unfold drawn_merged, DrawnMerged, Shows. fold dn. rewrite existsb_exists. split.
+    - intros [e [He H]]. apply andb_true_iff in H as [Hty H].
+      destruct (shown_real dn (e_src e)) as [s|] eqn:Es; [|discriminate].
+      destruct (shown_real dn (e_tgt e)) as [t|] eqn:Et; [|discriminate].
+      apply andb_true_iff in H as [Hs Ht]. apply memn_in in Hs. apply memn_in in Ht.
+      exists e, s, t. auto 10.
+    - intros [e [s [t [He [Hty [Es [Et [Hs Ht]]]]]]]]. exists e. split; [exact He|].
+      rewrite Hty, Es, Et. simpl. apply andb_true_iff. split; apply memn_in; assumption.
+  Qed.
+
+  Lemma drawn_separate_spec ps cs : drawn_separate D ps cs = true <-> DrawnSeparate ps cs.
+  Proof.
+    unfold drawn_separate, DrawnSeparate, Shows, ShowsData. fold dn. rewrite existsb_exists. split.
+    - intros [e [He H]]. apply andb_true_iff in H as [Hty H].
+      destruct (shown_data dn (e_src e)) as [[s o]|] eqn:Es; [|discriminate].
+      destruct (shown_real dn (e_tgt e)) as [t|] eqn:Et; [|discriminate].
+      apply andb_true_iff in H as [H Hex]. apply andb_true_iff in H as [Hso Ht].
+      apply memc_in in Hso. apply memn_in in Ht.
+      apply existsb_exists in Hex as [e' [He' H']].
+      apply andb_true_iff in H' as [H' Hs']. apply andb_true_iff in H' as [Hty' Htg].
+      apply Pos.eqb_eq in Htg.
+      destruct (shown_real dn (e_src e')) as [s'|] eqn:Es'; [|discriminate].
+      apply nid_eqb_eq in Hs'. simpl in Hs'. subst s'.
+      exists e, e', s, o, t. auto 12.
+    - intros [e [e' [s [o [t [He [He' [Hty [Hty' [Htg [Es [Et [Es' [Hso Ht]]]]]]]]]]]]]].
+      exists e. split; [exact He|]. rewrite Hty, Es, Et. simpl.
+      apply andb_true_iff. split; [apply andb_true_iff; split; [apply memc_in | apply memn_in]; assumption|].
+      apply existsb_exists. exists e'. split; [exact He'|].
+      rewrite Hty', Es'. simpl. rewrite nid_eqb_refl, andb_true_r. apply Pos.eqb_eq. exact Htg.
+  Qed.
+
+  Lemma drawn_direct_spec k s0 t0 : drawn_direct D k s0 t0 = true <-> DrawnDirect k s0 t0.
+  Proof.
+    unfold drawn_direct, DrawnDirect, Shows, at_or_inside. fold dn. rewrite existsb_exists. split.
+    - intros [e [He H]]. apply andb_true_iff in H as [Hty H].
+      destruct (shown_real dn (e_src e)) as [s|] eqn:Es; [|discriminate].
+      destruct (shown_real dn (e_tgt e)) as [t|] eqn:Et; [|discriminate].
+      apply andb_true_iff in H as [Hs Ht]. apply nid_eqb_eq in Hs. subst s.
+      apply is_prefix_spec in Ht as [r Hr]. exists e, t, r. auto 10.
+    - intros [e [t [r [He [Hty [Es [Et Hr]]]]]]]. exists e. split; [exact He|].
+      rewrite Hty, Es, Et. simpl. rewrite nid_eqb_refl. simpl. apply is_prefix_spec. exists r. exact Hr.
+  Qed.
+
+  Lemma dep_drawn_spec d : dep_drawn m st D d = true <-> DepDrawn d.
+  Proof.
+    unfold dep_drawn, DepDrawn. destruct (dp_kind d).
+    - destruct (separate m); [apply drawn_separate_spec | apply drawn_merged_spec].
+    - apply drawn_direct_spec.
+    - apply drawn_direct_spec.
+  Qed.
+
+  Lemma just_data_spec e : just_data m deps D e = true <-> JustData e.
+  Proof.
+    unfold just_data, JustData, Shows, ShowsData. fold dn. destruct (separate m).
+    - destruct (shown_data dn (e_src e)) as [[s o]|] eqn:Es.
+      + destruct (shown_real dn (e_tgt e)) as [t|] eqn:Et.
+        * rewrite existsb_exists. split.
+          -- intros [d [Hd H]]. apply andb_true_iff in H as [H Ht]. apply andb_true_iff in H as [Hk Hso].
+             apply ekind_eqb_eq in Hk. apply memc_in in Hso. apply memn_in in Ht. exists s, o, t, d. auto 10.
+          -- intros [s' [o' [t' [d [E1 [E2 [Hd [Hk [Hso Ht]]]]]]]]]. injection E1 as <- <-. injection E2 as <-.
+             exists d. split; [exact Hd|]. rewrite Hk. simpl.
+             apply andb_true_iff; split; [apply memc_in | apply memn_in]; assumption.
+        * split; [discriminate | intros [s' [o' [t' [d [_ [E2 _]]]]]]; discriminate].
+      + split; [discriminate | intros [s' [o' [t' [d [E1 _]]]]]; discriminate].
+    - destruct (shown_real dn (e_src e)) as [s|] eqn:Es.
+      + destruct (shown_real dn (e_tgt e)) as [t|] eqn:Et.
+        * rewrite existsb_exists. split.
+          -- intros [d [Hd H]]. apply andb_true_iff in H as [H Ht]. apply andb_true_iff in H as [Hk Hs].
+             apply ekind_eqb_eq in Hk. apply memn_in in Hs. apply memn_in in Ht. exists s, t, d. auto 10.
+          -- intros [s' [t' [d [E1 [E2 [Hd [Hk [Hs Ht]]]]]]]]. injection E1 as <-. injection E2 as <-.
+             exists d. split; [exact Hd|]. rewrite Hk. simpl.
+             apply andb_true_iff; split; apply memn_in; assumption.
+        * split; [discriminate | intros [s' [t' [d [_ [E2 _]]]]]; discriminate].
+      + split; [discriminate | intros [s' [t' [d [E1 _]]]]; discriminate].
+  Qed.
+
+  Lemma just_direct_spec k e : just_direct k deps D e = true <-> JustDirect k e.
+  Proof.
+    unfold just_direct, JustDirect, Shows, at_or_inside. fold dn.
+    destruct (shown_real dn (e_src e)) as [s|] eqn:Es.
+    - destruct (shown_real dn (e_tgt e)) as [t|] eqn:Et.
+      + rewrite existsb_exists. split.
+        * intros [d [Hd H]]. apply andb_true_iff in H as [H Ht]. apply andb_true_iff in H as [Hk Hs].
+          apply ekind_eqb_eq in Hk. apply nid_eqb_eq in Hs. apply is_prefix_spec in Ht as [r Hr].
+          exists s, t, d, r. auto 10.
+        * intros [s' [t' [d [r [E1 [E2 [Hd [Hk [Hs Ht]]]]]]]]]. injection E1 as <-. injection E2 as <-.
+          exists d. split; [exact Hd|]. rewrite Hk. subst s.
+          assert (Hkk : ekind_eqb k k = true) by (apply ekind_eqb_eq; reflexivity).
+          rewrite Hkk, nid_eqb_refl. simpl. apply is_prefix_spec. exists r. exact Ht.
+      + split; [discriminate | intros [s' [t' [d [r [_ [E2 _]]]]]]; discriminate].
+    - split; [discriminate | intros [s' [t' [d [r [E1 _]]]]]; discriminate].
+  Qed.
+
+  Lemma just_output_spec e : just_output fl D e = true <-> JustOutput e.
+  Proof.
+    unfold just_output, JustOutput, Shows, ShowsData. fold dn.
+    destruct (shown_real dn (e_src e)) as [s|] eqn:Es.
+    - destruct (shown_data dn (e_tgt e)) as [[s' o]|] eqn:Et.
+      + split.
+        * intro H. apply andb_true_iff in H as [Hs H]. apply nid_eqb_eq in Hs. subst s'.
+          destruct (find_f s fl) as [f|] eqn:Ef; [|discriminate]. apply memp_in in H.
+          exists s, o, f. auto.
+        * intros [s0 [o0 [f [E1 [E2 [Ef Ho]]]]]]. injection E1 as <-. injection E2 as <- <-.
+          rewrite nid_eqb_refl, Ef. simpl. apply memp_in. exact Ho.
+      + split; [discriminate | intros [s0 [o0 [f [_ [E2 _]]]]]; discriminate].
+    - split; [discriminate | intros [s0 [o0 [f [E1 _]]]]; discriminate].
+  Qed.
+
+  Lemma just_input_spec e : just_input ts ext D e = true <-> JustInput e.
+  Proof.
+    unfold just_input, JustInput, Shows, IsInput. fold dn.
+    destruct (is_input dn (e_src e)) as [ps|] eqn:Es.
+    - destruct (shown_real dn (e_tgt e)) as [t|] eqn:Et.
+      + rewrite existsb_exists. split.
+        * intros [p [Hp H]]. apply andb_true_iff in H as [Hext H]. apply memp_in in Hext.
+          apply existsb_exists in H as [c [Hc Ht]]. apply memn_in in Ht. exists ps, t, p, c. auto 10.
+        * intros [ps' [t' [p [c [E1 [E2 [Hp [Hext [Hc Ht]]]]]]]]]. injection E1 as <-. injection E2 as <-.
+          exists p. split; [exact Hp|]. apply andb_true_iff. split; [apply memp_in; exact Hext|].
+          apply existsb_exists. exists c. split; [exact Hc | apply memn_in; exact Ht].
+      + split; [discriminate | intros [ps' [t' [p [c [_ [E2 _]]]]]]; discriminate].
+    - split; [discriminate | intros [ps' [t' [p [c [E1 _]]]]]; discriminate].
+  Qed.
+
+  Lemma just_end_spec e : just_end fl D e = true <-> JustEnd e.
+  Proof.
+    unfold just_end, JustEnd, Shows. fold dn. rewrite andb_true_iff.
+    destruct (shown_real dn (e_src e)) as [g|] eqn:Es.
+    - destruct (find_f g fl) as [f|] eqn:Ef.
+      + split.
+        * intros [H1 H2]. split; [exact H1|]. exists g, f. auto.
+        * intros [H1 [g' [f' [E1 [E2 H3]]]]]. injection E1 as <-. rewrite Ef in E2. injection E2 as <-. auto.
+      + split; [intros [_ H]; discriminate | intros [_ [g' [f' [E1 [E2 _]]]]]; injection E1 as <-; congruence].
+    - split; [intros [_ H]; discriminate | intros [_ [g' [f' [E1 _]]]]; discriminate].
+  Qed.
+
+  Lemma justified_spec e : justified m ts fl deps ext D e = true <-> Justified e.
+  Proof.
+    unfold justified, Justified. destruct (e_ty e).
+    - apply just_input_spec.
+    - apply just_data_spec.
+    - apply just_direct_spec.
+    - apply just_direct_spec.
+    - apply just_end_spec.
+    - apply just_output_spec.
+    - rewrite !orb_true_iff, just_data_spec, just_direct_spec, just_output_spec. tauto.
+  Qed.
+
+  Lemma end_drawn_spec g : end_drawn D g = true <-> EndDrawn g.
+  Proof.
+    unfold end_drawn, EndDrawn, Shows. fold dn. rewrite existsb_exists. split.
+    - intros [e [He H]]. apply andb_true_iff in H as [H Hs]. apply andb_true_iff in H as [Hty Hend].
+      destruct (e_ty e) eqn:Ety; try discriminate.
+      destruct (shown_real dn (e_src e)) as [s|] eqn:Es; [|discriminate].
+      apply nid_eqb_eq in Hs. subst s. exists e. auto.
+    - intros [e [He [Hty [Hend Es]]]]. exists e. split; [exact He|].
+      rewrite Hty, Hend, Es. simpl. apply nid_eqb_refl.
+  Qed.
+
+  Lemma input_drawn_spec p c : input_drawn st D p c = true <-> InputDrawn p c.
+  Proof.
+    unfold input_drawn, InputDrawn, Shows, IsInput. fold dn. rewrite existsb_exists. split.
+    - intros [e [He H]]. apply andb_true_iff in H as [Hty H].
+      destruct (e_ty e) eqn:Ety; try discriminate.
+      destruct (is_input dn (e_src e)) as [ps|] eqn:Es; [|discriminate].
+      destruct (shown_real dn (e_tgt e)) as [t|] eqn:Et; [|discriminate].
+      apply andb_true_iff in H as [Hp Ht]. apply memp_in in Hp. apply memn_in in Ht.
+      exists e, ps, t. auto 10.
+    - intros [e [ps [t [He [Hty [Es [Et [Hp Ht]]]]]]]]. exists e. split; [exact He|].
+      rewrite Hty, Es, Et. simpl. apply andb_true_iff. split; [apply memp_in | apply memn_in]; assumption.
+  Qed.
+
+  (* C20_checker: the checker reports no problem exactly for the faithful drawings *)
+  Theorem viz_problems_spec : viz_problems m ts es ext st D = [] <-> Faithful.
+  Proof.
+    unfold viz_problems. fold fl deps dn.
+    rewrite !app_nil_iff.
+    rewrite guard_nil, nodup_keys_spec.
+    rewrite !flat_map_nil.
+    split.
+    - intros [H1 [H2 [H3 [H4 [H5 [H6 H7]]]]]]. constructor.
+      + exact H1.
+      + intros f Hf. specialize (H2 f Hf). apply guard_nil in H2. apply andb_true_iff in H2 as [Ha Hb].
+        apply Nat.leb_le in Ha. apply Nat.eqb_eq in Hb. auto.
+      + intros e He. specialize (H3 e He). apply guard_nil in H3.
+        destruct (find_key (e_src e) dn) as [d1|]; [|discriminate].
+        destruct (find_key (e_tgt e) dn) as [d2|]; [|discriminate].
+        split; eexists; reflexivity.
+      + intros d Hd Hs. specialize (H4 d Hd). apply guard_nil in H4. rewrite Hs in H4. simpl in H4.
+        apply dep_drawn_spec. exact H4.
+      + intros e He. specialize (H5 e He). apply guard_nil in H5. apply justified_spec. exact H5.
+      + intros f Hf He Hv. specialize (H6 f Hf). apply guard_nil in H6. rewrite He, Hv in H6. simpl in H6.
+        apply end_drawn_spec. exact H6.
+      + intros Hm p c Hp Hc. rewrite Hm in H7. rewrite flat_map_nil in H7. specialize (H7 p Hp).
+        rewrite flat_map_nil in H7. specialize (H7 c Hc). apply guard_nil in H7. apply input_drawn_spec. exact H7.
+    - intros [H1 H2 H3 H4 H5 H6 H7]. repeat split.
+      + exact H1.
+      + intros f Hf. apply guard_nil. destruct (H2 f Hf) as [Ha Hb].
+        apply andb_true_iff. split; [apply Nat.leb_le; exact Ha | apply Nat.eqb_eq; exact Hb].
+      + intros e He. apply guard_nil. destruct (H3 e He) as [[d1 E1] [d2 E2]]. fold dn. rewrite E1, E2. reflexivity.
+      + intros d Hd. apply guard_nil. destruct (dep_shown st d) eqn:Es; [|reflexivity].
+        simpl. apply dep_drawn_spec. apply H4; assumption.
+      + intros e He. apply guard_nil. apply justified_spec. apply H5. exact He.
+      + intros f Hf. apply guard_nil. destruct (f_end f) eqn:Ee; [|reflexivity].
+        destruct (vis st (f_id f)) eqn:Ev; [|reflexivity]. simpl. apply end_drawn_spec. apply H6; assumption.
+      + destruct (inputs_complete m) eqn:Em; [|reflexivity].
+        apply flat_map_nil. intros p Hp. apply flat_map_nil. intros c Hc. apply guard_nil.
+        apply input_drawn_spec. apply H7; auto.
+  Qed.
+
+  Corollary faithful_b_spec : faithful_b m ts es ext st D = true <-> Faithful.
+  Proof.
+    unfold faithful_b. rewrite <- viz_problems_spec. destruct (viz_problems m ts es ext st D); split; congruence.
+  Qed.
+End Faithful.
